@@ -5,6 +5,51 @@ HERE = os.path.dirname(os.path.abspath(__file__))
 BASELINE = "cd /repo && /venv/bin/python -m pytest -ra -q -p no:cacheprovider --timeout=900 --continue-on-collection-errors"
 
 CLAIMED = {
+ "C01": {
+  "text": "Kernel- and helper-level lemmas of slicing, proved for all inputs: awkward_regularize_rangeslice equals CPython's slice adjustment (PySlice_AdjustIndices) for both step signs and absent bounds; every getitem/carry/jagged/missing kernel is proved equal to its Python definition (lockstep) and memory-safe under its contract, with functional contracts on the carry kernels (output position = start + wrapped index; error iff out of range). The recursion through Content::getitem_next and toslice() is not covered.",
+  "ref": 'DESIGN.md section 5 (C01)',
+  "note": 'Trusted: clang AST, z3/cvc5, encoding assumptions listed in the evidence; preconditions written in contracts/*.py; the C++ class methods and Python functions that compose these kernels are glue outside the contracts (a change there is invisible to this check). Bounded stand-ins are never counted as proved.',
+  "technique": 'contract-based deductive verification of the real kernel code (VC generator over the clang AST, sidecar contracts, lockstep equivalence with the YAML definitions; z3/cvc5; replay on the compiled kernels)'},
+ "C02": {
+  "text": 'Normalisation kernels (compact offsets, broadcast_tooffsets, nextcarry/project, simplify, mask conversions, Index widening, contiguous, index carry, num) are proved equal to their definitions in every index-width specialization (32/U32/64 share one algorithm: same lockstep proof per instantiation, unsigned ones under start<=stop), with functional contracts where stated (compact offsets = offsets - offsets[0]; num = stop - start). That every operation first normalises is glue.',
+  "ref": 'DESIGN.md section 5 (C02)',
+  "note": 'Trusted: clang AST, z3/cvc5, encoding assumptions listed in the evidence; preconditions written in contracts/*.py; the C++ class methods and Python functions that compose these kernels are glue outside the contracts (a change there is invisible to this check). Bounded stand-ins are never counted as proved.',
+  "technique": 'contract-based deductive verification of the real kernel code (VC generator over the clang AST, sidecar contracts, lockstep equivalence with the YAML definitions; z3/cvc5; replay on the compiled kernels)'},
+ "C03": {
+  "text": "Leaf reducers and the reduce_next helper kernels: memory-safe for parents in [0,outlength), equal to their definitions (lockstep) in all 100+ specializations; arg-reducers keep 'toptr[p] is -1 or a position of group p' as a proved invariant; local nextparents has a full functional contract; the non-local pipeline (preparenext/outstartsstops) is covered by safety and equivalence only, not by a functional 'transpose' contract.",
+  "ref": 'DESIGN.md section 5 (C03)',
+  "note": 'Trusted: clang AST, z3/cvc5, encoding assumptions listed in the evidence; preconditions written in contracts/*.py; the C++ class methods and Python functions that compose these kernels are glue outside the contracts (a change there is invisible to this check). Bounded stand-ins are never counted as proved.',
+  "technique": 'contract-based deductive verification of the real kernel code (VC generator over the clang AST, sidecar contracts, lockstep equivalence with the YAML definitions; z3/cvc5; replay on the compiled kernels)'},
+ "C04": {
+  "text": 'Only the list-alignment kernels behind broadcasting (broadcast_tooffsets for ListArray/RegularArray, size-1 repetition, compact offsets) are under contract: equal to their definitions, memory-safe. broadcast_and_apply in _util.py, the n-ary case analysis the property is mostly about, cannot be executed or encoded here and is NOT covered.',
+  "ref": 'DESIGN.md section 5 (C04)',
+  "note": 'Trusted: clang AST, z3/cvc5, encoding assumptions listed in the evidence; preconditions written in contracts/*.py; the C++ class methods and Python functions that compose these kernels are glue outside the contracts (a change there is invisible to this check). Bounded stand-ins are never counted as proved.',
+  "technique": 'contract-based deductive verification of the real kernel code (VC generator over the clang AST, sidecar contracts, lockstep equivalence with the YAML definitions; z3/cvc5; replay on the compiled kernels)'},
+ "C05": {
+  "text": 'num, flatten_offsets, flatten_nextcarry/none2empty, UnionArray flatten (bounded), localindex kernels: equal to their definitions and memory-safe for valid offsets; num and flatten_offsets have functional contracts. ak.unflatten and the axis recursion are glue.',
+  "ref": 'DESIGN.md section 5 (C05)',
+  "note": 'Trusted: clang AST, z3/cvc5, encoding assumptions listed in the evidence; preconditions written in contracts/*.py; the C++ class methods and Python functions that compose these kernels are glue outside the contracts (a change there is invisible to this check). Bounded stand-ins are never counted as proved.',
+  "technique": 'contract-based deductive verification of the real kernel code (VC generator over the clang AST, sidecar contracts, lockstep equivalence with the YAML definitions; z3/cvc5; replay on the compiled kernels)'},
+ "C08": {
+  "text": 'All NumpyArray_fill specializations (169 FROM->TO pairs), ListArray/IndexedArray/UnionArray fill, simplify, project, regular_index, nestedfill kernels: equal to their definitions (the copy loop writes exactly toptr[tooffset+i] = cast(fromptr[i]) and nothing else) and memory-safe. Promotion table and mergemany call sites are not yet covered.',
+  "ref": 'DESIGN.md section 5 (C08)',
+  "note": 'Trusted: clang AST, z3/cvc5, encoding assumptions listed in the evidence; preconditions written in contracts/*.py; the C++ class methods and Python functions that compose these kernels are glue outside the contracts (a change there is invisible to this check). Bounded stand-ins are never counted as proved.',
+  "technique": 'contract-based deductive verification of the real kernel code (VC generator over the clang AST, sidecar contracts, lockstep equivalence with the YAML definitions; z3/cvc5; replay on the compiled kernels)'},
+ "C09": {
+  "text": 'rpad / rpad_and_clip / min_range / fillna / numnull / mask / overlay / bit-mask conversion kernels: equal to their definitions for every width, memory-safe under validity preconditions; the index buffers of rpad_axis1 are proved to be sized by the sum the length kernel computes (ghost prefix sum with a proved monotonicity lemma). ak.fill_none/is_none/mask in structure.py are glue.',
+  "ref": 'DESIGN.md section 5 (C09)',
+  "note": 'Trusted: clang AST, z3/cvc5, encoding assumptions listed in the evidence; preconditions written in contracts/*.py; the C++ class methods and Python functions that compose these kernels are glue outside the contracts (a change there is invisible to this check). Bounded stand-ins are never counted as proved.',
+  "technique": 'contract-based deductive verification of the real kernel code (VC generator over the clang AST, sidecar contracts, lockstep equivalence with the YAML definitions; z3/cvc5; replay on the compiled kernels)'},
+ "C11": {
+  "text": 'The three validity kernels (ListArray, IndexedArray, UnionArray; every width) are proved equal to their definitions and memory-safe; iff-contracts against the documented rules are stated in contracts/validity.py. Closure (operations return valid arrays) is covered only through the postconditions of the index-producing kernels, not through the node classes.',
+  "ref": 'DESIGN.md section 5 (C11)',
+  "note": 'Trusted: clang AST, z3/cvc5, encoding assumptions listed in the evidence; preconditions written in contracts/*.py; the C++ class methods and Python functions that compose these kernels are glue outside the contracts (a change there is invisible to this check). Bounded stand-ins are never counted as proved.',
+  "technique": 'contract-based deductive verification of the real kernel code (VC generator over the clang AST, sidecar contracts, lockstep equivalence with the YAML definitions; z3/cvc5; replay on the compiled kernels)'},
+ "C12": {
+  "text": 'Memory safety and absence of division traps for every CPU kernel symbol (690 specializations) and awkward_regularize_rangeslice under the extents and validity preconditions of the sidecar contracts: every array access inside its extent (or, where no extent is stated, index >= 0), no division by zero / MIN/-1, stores only through non-const parameters, inferred loop invariants inductive (Houdini). Call sites (Engine G), ownership/lifetime and the Python layer are not covered yet; Forth VM safety is under C19.',
+  "ref": 'DESIGN.md section 5 (C12)',
+  "note": 'Trusted: clang AST, z3/cvc5, encoding assumptions listed in the evidence; preconditions written in contracts/*.py; the C++ class methods and Python functions that compose these kernels are glue outside the contracts (a change there is invisible to this check). Bounded stand-ins are never counted as proved.',
+  "technique": 'contract-based deductive verification of the real kernel code (VC generator over the clang AST, sidecar contracts, lockstep equivalence with the YAML definitions; z3/cvc5; replay on the compiled kernels)'},
  "C19": {
   "text": "Deductive, per instruction: every `case CODE_*` block of ForthMachineOf<int64_t,int32_t>::internal_run is extracted from the clang AST of the working tree as its own unit (inline helpers of the class inlined from their own AST) and proved, for all machine states satisfying the machine invariant, to (a) access the data stack / do-stack / recursion stack only inside their extents, never divide by zero or trap, (b) re-establish the invariant at every exit, set the documented error code exactly when the documented condition holds, and (c) for the stack, arithmetic and comparison words, compute the documented result (floor division and modulo included) and leave the rest of the stack unchanged. ForthInputBuffer::read/seek/skip keep 0 <= pos <= length and move exactly as documented; ForthOutputBufferOf<int64_t> writes stay inside the (re)allocated buffer, never go through a pointer taken before a reallocation, and preserve what was already written (growth settings cannot change results); reset() clears every piece of run state. Programs are not enumerated; the compile-time half and step/run/resume sequencing are not covered.",
   "ref": "DESIGN.md section 5 (C19), section 2.4",
